@@ -24,7 +24,7 @@ CHECKS = {
     "Exploration over random batches with sub-formulae shared literally, up to renaming, inside/outside/across restricted scopes and across formulae; results compared position by position as BDDs. The hook log (hits, renamed hits, closed hits, hits inside restricted scopes, evictions, wild-card hits) must show that the sharing paths were exercised, otherwise the run is inconclusive.",
     META_NOTE + " The no-sharing baseline is the public eval_node with an empty duplicate table.", "§2 C04"),
  "C05": C("runtime monitoring: reference-model monitor (independent lexer + precedence-climbing parser) over an exhaustive token-sequence enumeration plus random strings",
-    "Exhaustive up to the stated token-sequence length in both parser modes (quick: 13 tokens^<=5 and 18^<=3; thorough: 13^<=7 and 18^<=5, ~70 M strings), random beyond; accept/reject and the produced tree compared with the reference, tokenizer compared token by token, plain vs extended parser compared.",
+    "Exhaustive up to the stated token-sequence length in both parser modes (quick: 13 tokens^<=5 and 18^<=3; thorough: 13^<=8 and 18^<=6, ~920 M strings), random beyond; accept/reject and the produced tree compared with the reference, tokenizer compared token by token, plain vs extended parser compared.",
     SYN_NOTE, "§2 C05"),
  "C06": C("runtime monitoring: invariant monitor on every node of trees from constructors, parsers and preprocessing (round trip, stored text, stored height)",
     "Exploration over random trees (all operators, atoms, wild-cards, domains, hostile identifiers, deep combs) from three sources; every node's stored text compared with the harness printer, heights recomputed, print->parse round trip checked with both parsers.",
